@@ -20,6 +20,13 @@ def one_build(c, tier, release):
                                what="CVec driven through its C layout diverges from the specification")
         tb += b
         ts += s
+    # vectors of elements with destructors (a C caller holds CVec<CBox<..>>, CVec<CArc<..>>, ...): released from C through
+    # drop_fn, everything else in Rust; the drop ledger of CVec.tla tells whether the release destroyed the elements
+    for e in ["heavy", "zst"]:
+        b, s = lib.replay_step(c, rt, ["vec"], j, ["--elem", e, "--c-release"], parts=4, label="(%s, elem=%s, release in C)" % (label, e),
+                               what="CVec released through its C layout diverges from the specification")
+        tb += b
+        ts += s
     j, n = lib.gen_step(c, "Gen_CArc", "Gen_CArc.cfg" if quick else "Gen_CArc_thorough.cfg", "gen_carc_c_%s" % label)
     nn += n
     b, s = lib.replay_step(c, rt, ["arc"], j, ["--slots", "3", "--allocs", "2", "--threads", "2", "--c"], parts=8, label="(%s, clone/drop in C)" % label,
@@ -44,7 +51,7 @@ def run(tier):
         tb += b2
         ts += s2
     c.assumptions += ["the C declarations in cview/cview.c are written from the property statement (field order and function signatures), not generated from the Rust sources",
-                      "element types: u8, u64, 3-byte struct, 16-byte aligned struct", "quick = debug build; thorough adds the release build"]
+                      "element types: u8, u64, 3-byte struct, 16-byte aligned struct driven entirely from C; heap-owning and zero-sized elements with destructors released from C", "quick = debug build; thorough adds the release build"]
     c.finish({"behaviours_replayed": tb, "replay_steps": ts, "exhaustive": True, "evaluations": tb, "distinct_nontrivial": nn,
               "rule": "all Gen_CVec behaviours a C caller can provoke (push/pop/insert/remove/reserve/write/release in C, 4 element types), all Gen_CArc behaviours with clone/release in C, differential scripts for box, slices (lengths 0-5), callbacks (lengths 0-5 x stop positions), iterators, option/result tags"})
 
